@@ -669,6 +669,10 @@ class Exec(Interp):
         nref_new = st.fresh("nref", z3.IntSort())
         st.assume(nref_new >= st.nref)
         st.nref = nref_new
+        # arrays first touched by this havoc had their initial value at call time
+        for nm in st.heap:
+            if nm not in ctx0.pre_heap and nm in st.heap0:
+                ctx0.pre_heap[nm] = st.heap0[nm]
         ctx = SpecCtx(ctx0.pre_heap, ctx0.pre_env, pre_nref=ctx0.pre_nref)
         rk = self.result_kind(fi, c)
         raises = chosen.raises
@@ -840,7 +844,8 @@ class Exec(Interp):
                 saved_pc = (list(st.pc), list(st.qpc))
                 if cs.raises is None and cs.returns is not None and rk is not KNone and outcome.kind == "return":
                     rv = self.spec_value(st, cs.returns, ctx)
-                    g = self.eq(st, ctx.result, rv)
+                    # "returns X": for dynamic values the SAME value is meant (identity; NaN == NaN is false in Python)
+                    g = self.identical(st, ctx.result, rv) if (ctx.result.kind is KVal and rv.kind is KVal) else self.eq(st, ctx.result, rv)
                     st.oblige("%s:post/%s/returns" % (q, cs.name), z3.Implies(w, g), kind="post",
                               info={"clause": "result == " + str(cs.returns), "outcome": desc}, assume_after=False)
                 if cs.raises is None and cs.returns_pred is not None and outcome.kind == "return":
